@@ -752,11 +752,14 @@ def selectorAppend : List SelList → Except RErr SelList
 /-- The model keeps an attribute's value and its modifier (`[t="v w" i]`, attribute.rs:139–157) in
     one opaque name: value, then U+0001 and the modifier letter.  Printed like attribute.rs:168:
     bare when the value is an identifier, double-quoted otherwise, then ` i`. -/
+def notMark (c : Char) : Bool := c != '\x01'
+def isIdentStartB (c : Char) : Bool := c.isAlpha || c == '_' || c == '-'
+def isIdentCharB (c : Char) : Bool := c.isAlphanum || c == '_' || c == '-'
+
 def attrValueText (v : Name) : List Char :=
-  let val := v.takeWhile (· ≠ '\x01')
-  let md := (v.dropWhile (· ≠ '\x01')).drop 1
-  let isId := !val.isEmpty && val.all (fun c => c.isAlphanum || c == '_' || c == '-') &&
-    !(val.head?.map Char.isDigit).getD false
+  let val := v.takeWhile notMark
+  let md := (v.dropWhile notMark).drop 1
+  let isId := val.all isIdentCharB && (val.head?.map isIdentStartB).getD false
   (if isId then val else '"' :: val ++ ['"']) ++ (if md.isEmpty then [] else ' ' :: md)
 
 def PName.text : PName → Name
@@ -796,8 +799,17 @@ def renderComponent : Component → List Char
   | .comb .child => ['>'] | .comb .next => ['+'] | .comb .later => ['~']
   | .compound c => renderC c
 
-def renderComplex (x : Complex) : List Char := [' '].intercalate (x.map renderComponent)
-def renderList (l : SelList) : List Char := ", ".toList.intercalate (l.map renderComplex)
+/-- components separated by one space (complex.rs:78) -/
+def renderComplex : Complex → List Char
+  | [] => []
+  | [c] => renderComponent c
+  | c :: d :: rest => renderComponent c ++ ' ' :: renderComplex (d :: rest)
+
+/-- complexes separated by `, ` (list.rs:45) -/
+def renderList : SelList → List Char
+  | [] => []
+  | [x] => renderComplex x
+  | x :: y :: rest => renderComplex x ++ ',' :: ' ' :: renderList (y :: rest)
 
 /-- what reaches the CSS: invisible complexes are filtered out (list.rs:47) -/
 def serialise (l : SelList) : List Char := renderList (l.filter (fun c => !c.isInvisible))
@@ -951,7 +963,7 @@ def pList : Nat → List Char → Option (SelList × List Char)
 end
 
 def parseSelList (cs : List Char) : Option SelList :=
-  match pList (4 * cs.length + 16) cs with
+  match pList (8 * cs.length + 16) cs with
   | some (l, r) => if (skipWs r).isEmpty then some l else none
   | none => none
 
